@@ -4,6 +4,7 @@
 # Scratch: /tmp/mv/{repo,verif} (same as tools/mutation_run.sh; do not run both at once).
 LOG=${1:-/tmp/mv/harmless-all.log}; : > $LOG
 R=/tmp/mv/repo; V=/tmp/mv/verif
+mkdir -p /tmp/mv; [ -d $R ] || git -C /repo worktree add -q --detach $R HEAD; [ -d $V ] || git -C /verif worktree add -q --detach $V HEAD
 run() { diff=$1; shift
   name=$(basename $diff .diff)
   git -C $R checkout -q -- . ; git -C $R checkout -q --detach $(git -C /repo rev-parse HEAD)
